@@ -1,5 +1,277 @@
+/-
+  C20 — valid calls on degenerate graphs return values or errors, never panic.
+
+  In the models every `unwrap`, slice index and integer subtraction of the Rust code is an explicit `panic`
+  outcome (or, inside mutations, the `poisoned` flag).  Under the coupling invariant - which holds on every
+  reachable store of any of the 8 kinds, including the empty graph, a single node, edgeless graphs, self-loops
+  and parallel edges - none of the modelled read functions reaches a panic site, for ANY argument (present or
+  absent names, any node set), and the error channel is used as appendix B of DESIGN.md describes.
+-/
+import GraphrsModel.Props.C01
 import GraphrsModel.ObsDegen
+import GraphrsModel.Lemmas.NoPanic
+import GraphrsModel.Lemmas.EqualSize
 namespace Graphrs
-/-- placeholder while the framework is brought up: replaced by the property theorems -/
-theorem C20_expect_plain (k a : Bool) : expect .plain k a = "*" := rfl
+open Store
+
+private theorem mem_names_of_mem {s : Store} {n : Node} (h : n ∈ s.nodesVec) : n.name ∈ s.names :=
+  List.mem_map.mpr ⟨n, h, rfl⟩
+
+private theorem forAllNodes_noPanic {α} (s : Store) (site : String) (f : Nat → Option α)
+    (h : ∀ n ∈ s.nodesVec, (f n.name).isSome = true) : (s.forAllNodes site f).isPanic = false := by
+  obtain ⟨l, hl⟩ := NP.forAllNodes_ok s site f h
+  rw [hl]; rfl
+
+
+/-- pairwise queries -/
+theorem C20_pair_queries_no_panic (s : Store) (h : s.wf = true) (u v : Nat) :
+    (s.getEdge u v).isPanic = false ∧ (s.getEdges u v).isPanic = false := by
+  obtain ⟨hn, he, hadj, hvec⟩ := NP.wf_parts' h
+  constructor
+  · unfold Store.getEdge
+    split; · rfl
+    split; · rfl
+    rename_i _ hc
+    simp only [Bool.or_eq_true, Bool.not_eq_true', not_or, Bool.not_eq_false] at hc
+    obtain ⟨ui, hui⟩ := Option.isSome_iff_exists.mp hc.1
+    obtain ⟨vi, hvi⟩ := Option.isSome_iff_exists.mp hc.2
+    rw [NP.getNodeIndex_unwrap _ hui, NP.getNodeIndex_unwrap _ hvi]
+    show (s.getEdgeByIndexes ui vi).isPanic = false
+    unfold Store.getEdgeByIndexes
+    split
+    · rfl
+    · rename_i hl; exact (NP.emap_ne_nil he hl).elim
+    · rfl
+  · unfold Store.getEdges
+    split; · rfl
+    split; · rfl
+    rename_i _ hc
+    simp only [Bool.or_eq_true, Bool.not_eq_true', not_or, Bool.not_eq_false] at hc
+    obtain ⟨ui, hui⟩ := Option.isSome_iff_exists.mp hc.1
+    obtain ⟨vi, hvi⟩ := Option.isSome_iff_exists.mp hc.2
+    rw [NP.getNodeIndex_unwrap _ hui, NP.getNodeIndex_unwrap _ hvi]
+    show (match s.edgesByIdx ui vi with | none => Outcome.err .EdgeNotFound | some l => .ok l).isPanic = false
+    split <;> rfl
+
+/-- per-node edge lists, for every name (present or absent) -/
+theorem C20_node_edge_lists_no_panic (s : Store) (h : s.wf = true) (x : Nat) :
+    (s.getEdgesForNode x).isPanic = false ∧ (s.getInEdgesForNode x).isPanic = false ∧
+    (s.getOutEdgesForNode x).isPanic = false := by
+  obtain ⟨hn, he, hadj, hvec⟩ := NP.wf_parts' h
+  by_cases hx : x ∈ s.names
+  · refine ⟨?_, ?_, ?_⟩
+    · obtain ⟨l, hl⟩ := NP.getEdgesForNode_ok hn he hadj hx; rw [hl]; rfl
+    · cases hd : s.specs.directed with
+      | true => obtain ⟨l, hl⟩ := NP.getInEdgesForNode_ok hn he hadj hx hd; rw [hl]; rfl
+      | false => simp [Store.getInEdgesForNode, hd]; rfl
+    · cases hd : s.specs.directed with
+      | true => obtain ⟨l, hl⟩ := NP.getOutEdgesForNode_ok hn he hadj hx hd; rw [hl]; rfl
+      | false => simp [Store.getOutEdgesForNode, hd]; rfl
+  · have hg := NP.getNode_none hn hx
+    refine ⟨?_, ?_, ?_⟩
+    · rw [NP.getEdgesForNode_absent hn hx]; rfl
+    · unfold Store.getInEdgesForNode; rw [if_pos hg]; split <;> rfl
+    · unfold Store.getOutEdgesForNode; rw [if_pos hg]; split <;> rfl
+
+/-- node-set variants, for every list of names -/
+theorem C20_node_set_queries_no_panic (s : Store) (S : List Nat) :
+    (s.getEdgesForNodes S).isPanic = false ∧ (s.getInEdgesForNodes S).isPanic = false ∧
+    (s.getOutEdgesForNodes S).isPanic = false := by
+  refine ⟨?_, ?_, ?_⟩
+  · unfold Store.getEdgesForNodes; split <;> rfl
+  · unfold Store.getInEdgesForNodes; split <;> (try split) <;> rfl
+  · unfold Store.getOutEdgesForNodes; split <;> (try split) <;> rfl
+
+/-- successor / predecessor / neighbour queries -/
+theorem C20_adjacency_queries_no_panic (s : Store) (h : s.wf = true) (x : Nat) :
+    (s.getSuccessorNodes x).isPanic = false ∧ (s.getPredecessorNodes x).isPanic = false ∧
+    (s.getNeighborNodes x).isPanic = false := by
+  obtain ⟨hn, he, hadj, hvec⟩ := NP.wf_parts' h
+  have A := NP.adjFacts hadj
+  have hadjN : ∀ m, (∀ i l, alookup m i = some l → ∀ j ∈ l, j < s.nodesVec.length) →
+      (s.getAdjNodes m x).isPanic = false := by
+    intro m hm
+    by_cases hx : x ∈ s.names
+    · obtain ⟨l, hl⟩ := NP.getAdjNodes_ok hn m hm hx; rw [hl]; rfl
+    · rw [NP.getAdjNodes_absent hn m hx]; rfl
+  refine ⟨?_, ?_, ?_⟩
+  · unfold Store.getSuccessorNodes
+    split
+    · rfl
+    · exact hadjN _ (fun i l hl => (A.succMap_lt i l hl).2)
+  · unfold Store.getPredecessorNodes
+    split
+    · rfl
+    · exact hadjN _ (fun i l hl => (A.predMap_lt i l hl).2)
+  · by_cases hx : x ∈ s.names
+    · obtain ⟨l, hl⟩ := NP.getNeighborNodes_ok hn hvec hx; rw [hl]; rfl
+    · rw [NP.getNeighborNodes_absent hn hx]; rfl
+
+/-- functions without an error channel do not panic on names that exist -/
+theorem C20_succ_or_nbrs_no_panic (s : Store) (h : s.wf = true) (x : Nat) (hx : s.hasNode x = true) :
+    (s.getSuccessorsOrNeighbors x).isPanic = false := by
+  obtain ⟨hn, he, hadj, hvec⟩ := NP.wf_parts' h
+  have A := NP.adjFacts hadj
+  have hx := (NP.hasNode_iff hn x).mp hx
+  unfold Store.getSuccessorsOrNeighbors
+  split
+  · rename_i hd
+    obtain ⟨l, hl⟩ := NP.getAdjNodes_ok hn s.succMap (fun i l hl => (A.succMap_lt i l hl).2) hx
+    simp [Store.getSuccessorNodes, hd, hl, Outcome.unwrap, Outcome.isPanic]
+  · obtain ⟨l, hl⟩ := NP.getNeighborNodes_ok hn hvec hx
+    simp [hl, Outcome.unwrap, Outcome.isPanic]
+
+/-- the degree maps (they `unwrap` a per-node degree) -/
+theorem C20_degree_maps_no_panic (s : Store) (h : s.wf = true) :
+    s.getDegreeForAllNodes.isPanic = false ∧ s.getInDegreeForAllNodes.isPanic = false ∧
+    s.getOutDegreeForAllNodes.isPanic = false ∧ s.getWeightedDegreeForAllNodes.isPanic = false ∧
+    s.degreeCentrality.isPanic = false ∧ s.getAdjacencyTriplets.isPanic = false := by
+  obtain ⟨hn, he, hadj, hvec⟩ := NP.wf_parts' h
+  have hdeg : ∀ n ∈ s.nodesVec, (s.getNodeDegree n.name).isSome = true := by
+    intro n hnm
+    obtain ⟨l, hl⟩ := NP.getEdgesForNode_ok hn he hadj (mem_names_of_mem hnm)
+    simp [Store.getNodeDegree, hl]
+  refine ⟨?_, ?_, ?_, ?_, ?_, ?_⟩
+  · obtain ⟨l, hl⟩ := NP.forAllNodes_ok s "get_degree_for_all_nodes: unwrap" s.getNodeDegree hdeg
+    unfold Store.getDegreeForAllNodes; rw [hl]; rfl
+  · unfold Store.getInDegreeForAllNodes
+    split
+    · rfl
+    · rename_i hd
+      simp only [Bool.not_eq_true', Bool.not_eq_false] at hd
+      obtain ⟨l, hl⟩ := NP.forAllNodes_ok s "get_in_degree_for_all_nodes: unwrap" s.getNodeInDegree (by
+        intro n hnm
+        obtain ⟨l, hl⟩ := NP.getInEdgesForNode_ok hn he hadj (mem_names_of_mem hnm) hd
+        simp [Store.getNodeInDegree, hl])
+      rw [hl]; rfl
+  · unfold Store.getOutDegreeForAllNodes
+    split
+    · rfl
+    · rename_i hd
+      simp only [Bool.not_eq_true', Bool.not_eq_false] at hd
+      obtain ⟨l, hl⟩ := NP.forAllNodes_ok s "get_out_degree_for_all_nodes: unwrap" s.getNodeOutDegree (by
+        intro n hnm
+        obtain ⟨l, hl⟩ := NP.getOutEdgesForNode_ok hn he hadj (mem_names_of_mem hnm) hd
+        simp [Store.getNodeOutDegree, hl])
+      rw [hl]; rfl
+  · obtain ⟨l, hl⟩ := NP.forAllNodes_ok s "get_weighted_degree_for_all_nodes: unwrap" s.getNodeWeightedDegree (by
+      intro n hnm
+      obtain ⟨l, hl⟩ := NP.getEdgesForNode_ok hn he hadj (mem_names_of_mem hnm)
+      simp [Store.getNodeWeightedDegree, hl])
+    unfold Store.getWeightedDegreeForAllNodes; rw [hl]; rfl
+  · unfold Store.degreeCentrality
+    simp only
+    split
+    · rfl
+    · apply forAllNodes_noPanic
+      intro n hnm
+      have := hdeg n hnm
+      cases hg : s.getNodeDegree n.name with
+      | none => rw [hg] at this; cases this
+      | some d => rfl
+  · unfold Store.getAdjacencyTriplets
+    split
+    · rfl
+    · obtain ⟨l, hl⟩ := Outcome.foldl_ok s.edgesMap (fun kv => kv.2 ≠ [])
+        (fun (l : List (Nat × Nat × Int)) (kv : (Nat × Nat) × List Edge) =>
+          match kv.2 with
+          | [] => Outcome.panic "get_sparse_adjacency_matrix: edges[0]"
+          | e :: _ =>
+            let w : Int := match e.w with | none => 1 | some x => x
+            let (u, v) := kv.1
+            let l := l ++ [(u, v, w)]
+            Outcome.ok (if !s.specs.directed && u != v then l ++ [(v, u, w)] else l)) []
+        (by
+          intro kv hkv hnil
+          obtain ⟨k, l⟩ := kv
+          simp only at hnil; subst hnil
+          exact NP.emap_ne_nil he (AL.mem_lookup he.emap_nodup hkv))
+        (by
+          intro b kv hkv
+          obtain ⟨k, l⟩ := kv
+          cases l with
+          | nil => exact absurd rfl hkv
+          | cons e l => exact ⟨_, rfl⟩)
+      exact Outcome.isPanic_of_ok hl
+
+/-- absent names come back through the error channel (Result -> NodeNotFound, Option -> None), never as a wrong value -/
+theorem C20_absent_name_channel (s : Store) (h : s.wf = true) (x : Nat) (hx : s.hasNode x = false) :
+    s.getEdgesForNode x = .err .NodeNotFound ∧ s.getNeighborNodes x = .err .NodeNotFound ∧
+    s.getNodeDegree x = none ∧ s.getNodeInDegree x = none ∧ s.getNodeOutDegree x = none ∧
+    s.getNodeWeightedDegree x = none ∧
+    (s.specs.directed = true → s.getInEdgesForNode x = .err .NodeNotFound ∧ s.getOutEdgesForNode x = .err .NodeNotFound ∧
+        s.getSuccessorNodes x = .err .NodeNotFound ∧ s.getPredecessorNodes x = .err .NodeNotFound) := by
+  obtain ⟨hn, he, hadj, hvec⟩ := NP.wf_parts' h
+  have hx' : x ∉ s.names := by
+    intro hm
+    rw [(NP.hasNode_iff hn x).mpr hm] at hx; cases hx
+  have hg := NP.getNode_none hn hx'
+  have h1 := NP.getEdgesForNode_absent hn hx'
+  have hin : ∃ k, s.getInEdgesForNode x = .err k := by
+    unfold Store.getInEdgesForNode; rw [if_pos hg]; split <;> exact ⟨_, rfl⟩
+  have hout : ∃ k, s.getOutEdgesForNode x = .err k := by
+    unfold Store.getOutEdgesForNode; rw [if_pos hg]; split <;> exact ⟨_, rfl⟩
+  refine ⟨h1, NP.getNeighborNodes_absent hn hx', ?_, ?_, ?_, ?_, ?_⟩
+  · simp [Store.getNodeDegree, h1]
+  · obtain ⟨k, hk⟩ := hin; simp [Store.getNodeInDegree, hk]
+  · obtain ⟨k, hk⟩ := hout; simp [Store.getNodeOutDegree, hk]
+  · simp [Store.getNodeWeightedDegree, h1]
+  · intro hd
+    refine ⟨?_, ?_, ?_, ?_⟩
+    · unfold Store.getInEdgesForNode; rw [if_pos hg]; simp [hd]
+    · unfold Store.getOutEdgesForNode; rw [if_pos hg]; simp [hd]
+    · unfold Store.getSuccessorNodes; simp [hd, NP.getAdjNodes_absent hn _ hx']
+    · unfold Store.getPredecessorNodes; simp [hd, NP.getAdjNodes_absent hn _ hx']
+
+/-- the wrong kind of graph comes back as WrongMethod / None -/
+theorem C20_wrong_kind_channel (s : Store) (x : Nat) (S : List Nat) :
+    (s.specs.directed = false →
+        s.getInEdgesForNode x = .err .WrongMethod ∧ s.getOutEdgesForNode x = .err .WrongMethod ∧
+        s.getInEdgesForNodes S = .err .WrongMethod ∧ s.getOutEdgesForNodes S = .err .WrongMethod ∧
+        s.getNodeInDegree x = none ∧ s.getNodeOutDegree x = none ∧
+        s.getInDegreeForAllNodes = .err .WrongMethod ∧ s.getOutDegreeForAllNodes = .err .WrongMethod ∧
+        s.reverse = .err .WrongMethod ∧ s.weaklyConnectedComponents = .err .WrongMethod ∧
+        s.stronglyConnectedComponents = .err .WrongMethod) ∧
+    (s.specs.directed = true →
+        s.connectedComponents = .err .WrongMethod ∧ s.nodeConnectedComponent x = .err .WrongMethod ∧
+        s.triangles (some S) = .err .WrongMethod ∧ s.transitivity = .err .WrongMethod ∧
+        s.generalizedDegree none = .err .WrongMethod) ∧
+    (s.specs.multi = true → s.getAdjacencyTriplets = .err .WrongMethod ∧ s.clusteringUnweighted (some S) = .err .WrongMethod) := by
+  refine ⟨?_, ?_, ?_⟩
+  · intro hd
+    have h1 : s.getInEdgesForNode x = .err .WrongMethod := by simp [Store.getInEdgesForNode, hd]
+    have h2 : s.getOutEdgesForNode x = .err .WrongMethod := by simp [Store.getOutEdgesForNode, hd]
+    refine ⟨h1, h2, ?_, ?_, ?_, ?_, ?_, ?_, ?_, ?_, ?_⟩
+    · simp [Store.getInEdgesForNodes, hd]
+    · simp [Store.getOutEdgesForNodes, hd]
+    · simp [Store.getNodeInDegree, h1]
+    · simp [Store.getNodeOutDegree, h2]
+    · simp [Store.getInDegreeForAllNodes, hd]
+    · simp [Store.getOutDegreeForAllNodes, hd]
+    · simp [Store.reverse, hd]
+    · simp [Store.weaklyConnectedComponents, Store.ensureDirected, hd]; rfl
+    · simp [Store.stronglyConnectedComponents, Store.ensureDirected, hd]; rfl
+  · intro hd
+    refine ⟨?_, ?_, ?_, ?_, ?_⟩
+    · simp [Store.connectedComponents, Store.ensureUndirected, hd]; rfl
+    · simp [Store.nodeConnectedComponent, Store.ensureUndirected, hd]; rfl
+    · simp [Store.triangles, Store.ensureUndirected, hd]; rfl
+    · simp [Store.transitivity, Store.ensureUndirected, hd]; rfl
+    · simp [Store.generalizedDegree, Store.ensureUndirected, hd]; rfl
+  · intro hm
+    refine ⟨?_, ?_⟩
+    · simp [Store.getAdjacencyTriplets, hm]
+    · simp [Store.clusteringUnweighted, Store.ensureNotMulti, hm]; rfl
+
+/-- `bfs_equal_size_partitions(k)`, k ≥ 1: the part index never runs out of range and the search for an unvisited node
+    never fails (the arithmetic of `partition_max_size = n / k + 1`) -/
+theorem C20_equal_size_no_panic (s : Store) (h : s.wf = true) (k : Nat) (hk : 0 < k) :
+    (s.bfsEqualSizePartitions k).isPanic = false := by
+  exact NP.bfsEqualSizePartitions_noPanic s (NP.wf_parts' h).1 k hk
+
+/-- non-vacuity: the sweep's own empty and single-node graphs satisfy the invariant -/
+example : (Store.new ⟨true, true, true, .error, .create, .drop⟩).wf = true ∧
+    ((Store.new ⟨false, false, true, .keepFirst, .create, .drop⟩).addNode ⟨2, none⟩).wf = true := by
+  decide
+
 end Graphrs
